@@ -162,7 +162,8 @@ SPECS = {
             lambda p, t, s: run_core_focus("MCCoreR.cfg", p, t, s, cap=(1500 if t == "quick" else 100000))],
     "C03": [lambda p, t, s: run_core("a", p, t, s), lambda p, t, s: run_core_focus("MCCoreK.cfg", p, t, s, cap=(2500 if t == "quick" else 100000)), lambda p, t, s: run_core_focus("MCCoreY.cfg", p, t, s, cap=(3000 if t == "quick" else 100000))],
     "C04": [lambda p, t, s: run_core("a", p, t, s), lambda p, t, s: run_core_focus("MCCoreO.cfg", p, t, s),
-            lambda p, t, s: run_core_focus("MCCoreS.cfg", p, t, s, cap=(3000 if t == "quick" else 100000))],
+            lambda p, t, s: run_core_focus("MCCoreS.cfg", p, t, s, cap=(3000 if t == "quick" else 100000)),
+            lambda p, t, s: run_core_focus("MCCoreP.cfg", p, t, s, cap=(2500 if t == "quick" else 100000))],
     "C05": [lambda p, t, s: run_core("a", p, t, s), lambda p, t, s: run_core_focus("MCCoreR.cfg", p, t, s, cap=(3000 if t == "quick" else 100000))],
     "C16": [lambda p, t, s: run_core("a", p, t, s), lambda p, t, s: run_core("q", p, t, s),
             lambda p, t, s: run_core_focus("MCCoreO.cfg", p, t, s, cap=1500)],
